@@ -152,7 +152,10 @@ PUSH = dict(
               'old(self).allowed@.len() > 0 ==> allowed.start >= old(self).allowed@.last().end'],
     ensures=['mask_wf(final(self).allowed@)',
              # exactly the old characters plus the new span are allowed afterwards
-             'forall|c: int| mask_allows(final(self).allowed@, c) <==> (mask_allows(old(self).allowed@, c) || allowed.start <= c < allowed.end)'],
+             'forall|c: int| mask_allows(final(self).allowed@, c) <==> (mask_allows(old(self).allowed@, c) || allowed.start <= c < allowed.end)',
+             # the new span is the last one, and a mask that was inside a text of n characters stays inside it
+             'final(self).allowed@.len() > 0 && final(self).allowed@.last().end == allowed.end',
+             'forall|n: int| mask_in(old(self).allowed@, n) && allowed.end <= n ==> mask_in(final(self).allowed@, n)'],
     proofs=[dict(before='return;', text='lemma_allows_grow_last(old(self).allowed@, self.allowed@, allowed);'),
             dict(before='self.allowed.push(allowed)', text='assert(self.allowed@ =~= old(self).allowed@); lemma_allows_push(self.allowed@, allowed); let f = self.allowed@.push(allowed); assert forall|c: int| mask_allows(f, c) <==> (mask_allows(old(self).allowed@, c) || allowed.start <= c < allowed.end) by {}')],
 )
